@@ -23,7 +23,8 @@ run_one() {
 }
 export -f run_one
 res=$(mktemp)
-for f in selftest/harmless/*/*.patch; do p=$(basename $(dirname $f)); if [ "$want" = "  " ] || echo "$want" | grep -q " $p "; then echo "$p /verif/$f"; fi; done | xargs -P "$J" -L 1 bash -c 'run_one "$0" "$1"' | tee "$res"
+# every claimed property that has a unit in a package the patch touches is checked (not only the one the patch is filed under)
+for f in selftest/harmless/${MH_DIRS:-*}/*.patch; do for p in $(python3 tools/props_for_patch.py $f); do if [ "$want" = "  " ] || echo "$want" | grep -q " $p "; then echo "$p /verif/$f"; fi; done; done | xargs -P "$J" -L 1 bash -c 'run_one "$0" "$1"' | tee "$res"
 a=$(grep -c '^MUSTHOLD ALARM' "$res"); o=$(grep -c '^MUSTHOLD ok' "$res")
 echo "MUSTHOLD summary: ok=$o alarms=$a"
 rm -f "$res"
